@@ -299,7 +299,10 @@ class Evaluator:
     ev_Type = ev_Use
 
     def ev_Cast(self, e, env, ctx):
-        return ("cast", self.ev(e["e"], env, ctx), e.get("ty"))
+        inner = self.ev(e["e"], env, ctx)
+        if e.get("ty") in ("i8", "i16", "i32", "i64", "i128", "isize", "u8", "u16", "u32", "u64", "u128", "usize", "f32", "f64", "bool", "char") or str(e.get("ty", "")).startswith("*"):
+            return ("cast", inner, e.get("ty"))
+        return inner  # unsizing / identity cast
 
     def ev_AddrOf(self, e, env, ctx):
         return self.ev(e["e"], env, ctx)
